@@ -222,6 +222,9 @@ impl Remote for MockRemote {
                 go.store(id, std::sync::atomic::Ordering::SeqCst);
                 for _ in 0..spin { std::hint::spin_loop(); }
             }
+            // (oracle-only token, filtered out of the trace that is compared with the model: the
+            // adapter tells the driver that the peer closed this connection)
+            WORLD.with(|w| { let mut w = w.borrow_mut(); let id = my_id(self.key, false); w.log.push(format!("AR:{}:D", id)); });
             ReadStatus::Disconnected
         } else {
             ReadStatus::WaitNextEvent
@@ -435,10 +438,11 @@ pub fn run(a: &Args) {
     let n = if a.thorough { 30_000 } else { 1_500 };
     for i in 0..n {
         let steps = if i % 10 == 0 { r.range(40, 80) } else { r.range(3, 30) } as usize;
-        let (case, imp) = one_history(&mut r, steps, &mut out);
+        let (case, imp_full) = one_history(&mut r, steps, &mut out);
+        let imp: String = imp_full.split(' ').filter(|t| !t.starts_with("AR:")).collect::<Vec<_>>().join(" ");
         // implementation-level oracle: the lifecycle automaton and the exactly-once end (also judged
         // by the extracted Coq predicates on the model side)
-        let verdict = check_trace(&imp, &mut out);
+        let verdict = check_trace(&imp_full, &mut out);
         // the model-side core `driverprops` evaluates the extracted Coq predicates on THIS trace
         out.case2(&format!("{} || {}", case, imp), &imp, &verdict);
     }
@@ -457,8 +461,21 @@ pub fn check_trace(trace: &str, out: &mut Out) -> String {
     let toks: Vec<&str> = trace.split(' ').filter(|t| !t.is_empty()).collect();
     let before = out.violations.len() as u64 + out.counters.get("impl_property_violations").cloned().unwrap_or(0);
     let mut removed_ok: Vec<u64> = vec![];
+    let mut expect_disc: Option<u64> = None;
     for (i, t) in toks.iter().enumerate() {
         let p: Vec<&str> = t.split(':').collect();
+        // the adapter reported the peer's close of an established, not removed connection: the very
+        // next observable thing is its Disconnected event
+        if let Some(id) = expect_disc.take() {
+            if !(p[0] == "E" && p.get(1) == Some(&"D") && p.get(2).and_then(|x| x.parse::<u64>().ok()) == Some(id)) {
+                out.violation(&format!("[C04,C03] the peer closed the established connection {} (the adapter's receive() answered Disconnected, the user had not removed it) and no Disconnected event was delivered for it (next trace item: {})", id, t));
+            }
+        }
+        if p[0] == "AR" {
+            let id: u64 = p[1].parse().unwrap();
+            if ph.get(&id) == Some(&Ph::Est) && !removed_ok.contains(&id) { expect_disc = Some(id); }
+            continue;
+        }
         match (p[0], p.get(1).cloned().unwrap_or("")) {
             ("R", "conn") if p[2] != "none" => {
                 let id: u64 = p[2].parse().unwrap();
@@ -528,6 +545,7 @@ pub fn check_trace(trace: &str, out: &mut Out) -> String {
             _ => {}
         }
     }
+    if let Some(id) = expect_disc { out.violation(&format!("[C04,C03] the peer closed the established connection {} and no Disconnected event was delivered for it (end of the history)", id)); }
     let worst = ends.values().cloned().max().unwrap_or(0);
     if worst > 1 { out.violation(&format!("[C04] a connection ended {} times (successful removes + Disconnected events)", worst)); }
     let after = out.violations.len() as u64 + out.counters.get("impl_property_violations").cloned().unwrap_or(0);
